@@ -660,7 +660,9 @@ REGISTRY = {
                      "Part 2: behaviours of MC_Conn drawn by TLC (Gen_Conn, simulation under a drawn environment plan: 150 quick / 2500 "
                      "thorough) and one script per TRANSITION of MC_Conn's state graph (Cover_Conn: the shortest path to the source state plus "
                      "the transition; a twelfth of the 1 569 transitions of the 1-packet graph in quick, all 5 428 of the 2-packet graph in "
-                     "thorough) replayed on the real code with the library's hook points as scheduler gates, so that the real goroutines "
+                     "thorough), plus one script per abstract CROSS transition of the two-call graph (Cover_Conn.cross.cfg: a step of the first "
+                     "call's reader while the second call is under way; 248 scripts, a third of them in quick; 2-packet graph in thorough), "
+                     "replayed on the real code with the library's hook points as scheduler gates, so that the real goroutines "
                      "take their steps in the order TLC chose; followed by a clean attempt"),
     "C06": dict(parts=[dict(mode="c06", conn=True, trace_module="Trace_Stream", trace_cfg="Trace_Stream.cfg", props=["C06"]),
                        dict(mode="c06g", conn=True, trace_module="Trace_Stream", trace_cfg="Trace_Stream.cfg", props=["C06"], drift_props=["D06"])],
